@@ -214,10 +214,17 @@ inline void singleSetCase(Ctx& c, size_t ci, size_t fi, int bg)
         Bytes protoRaw = proto->raw();
         e.gettersMatch(*proto, protoRaw, cd.name + " background " + bgName + " image=" + hex(protoRaw, 64), "background", nullptr);
     }
+    size_t vi = 0;
     for (uint64_t v : vals)
     {
         auto s = mk();
-        e.step(*s, f, v, "(background " + bgName + ")");
+        std::string tagged;
+        if (cd.retag && (vi++ % 4) == 3)
+        {
+            tagged = "; " + cd.retag(*s, rs.next());
+            c.count("setter_calls_on_objects_with_a_changed_type_tag");
+        }
+        e.step(*s, f, v, "(background " + bgName + tagged + ")");
         const char* vc = v == 0 ? "0" : (v == f.maxValue() ? "max" : (__builtin_popcountll(v) == 1 ? "single-bit" : "other"));
         c.sig(mix64(hashStr(cd.name + "." + f.name), mix64(static_cast<uint64_t>(bg > 3 ? 3 : bg), hashStr(vc))));
     }
@@ -239,6 +246,23 @@ inline void sequenceCase(Ctx& c, size_t ci, long idx)
     size_t n = r.range(8, 64);
     for (size_t i = 0; i < n; ++i)
     {
+        if (cd.retag && r.chance(1, 6))
+        {
+            // the type tag is changed through the Payload base: no byte and no typed getter may change, and every later
+            // setter call is still judged by the static class
+            Bytes before = s->raw();
+            std::string call = cd.retag(*s, r.next());
+            Bytes after = s->raw();
+            ++c.evaluations;
+            std::string in = cd.name + ": image before=" + hex(before, 64) + " " + hist + ") " + call;
+            c.note(in);
+            if (after != before)
+                e.v11("C11:type-tag-setter-changes-payload-bytes:" + cd.name, "after " + call + ": image=" + hex(after, 64), in);
+            e.gettersMatch(*s, after, in, "after type tag change", nullptr);
+            if (hist.size() < 600)
+                hist += " [" + call + "]";
+            c.count("type_tag_changes_inside_setter_sequences");
+        }
         const FieldDef& f = cd.fields[r.below(cd.fields.size())];
         uint64_t v;
         if (!f.domain.empty())
